@@ -86,7 +86,7 @@ theorem retribution_amounts_agree {enc : SC → Nat} {dust : Nat} {e : RevEntry}
     (m : Matches enc dust e tx) :
     (dust ≤ e.ourBal / 1000 → (tx[e.ourIdx]?).map TxO.value = some (e.ourBal / 1000)) ∧
     (dust ≤ e.theirBal / 1000 → (tx[e.theirIdx]?).map TxO.value = some (e.theirBal / 1000)) ∧
-    (∀ he ∈ e.htlcs, (tx[he.idx]?).map TxO.value = some (he.amt / 1000)) := by
+    (∀ he ∈ e.htlcs, (tx[he.idx]?).map TxO.value = some he.amt) := by
   refine ⟨fun h => by rw [m.our_some h]; rfl, fun h => by rw [m.their_some h]; rfl, fun he hm => ?_⟩
   rw [m.htlc he hm]; rfl
 
